@@ -30,6 +30,7 @@ static const size_t kGuard = 64;
 static const unsigned char kCanary = 0xCD;
 
 volatile uint64_t g_sanitizer_reports = 0;
+volatile unsigned g_bool_sink = 0;
 volatile uint64_t g_alloc_bytes = 0, g_alloc_max = 0, g_alloc_calls = 0, g_alloc_refused = 0;
 volatile bool g_meter = false;
 
